@@ -154,6 +154,10 @@ let () =
   register "drop" (fun tk -> match tk with
     | [_; name] -> with_file "drop" name (fun _ -> obs "drop ok")
     | _ -> failwith "drop");
+  (* a handle forgotten without Close: nothing reaches the file (Handle.v: only sync changes the disk) *)
+  register "abandon" (fun tk -> match tk with
+    | [_; name] -> with_file "abandon" name (fun _ -> obs "abandon ok")
+    | _ -> failwith "abandon");
   register "openro" (fun tk -> match tk with
     | [_; name] -> with_file "openro" name (fun h -> match reopen h with
         | Some h' -> set_file name (Some h'); obs "openro ok"
